@@ -94,7 +94,17 @@ func ruleBigWrappers(w *World, r *RuleResult) {
 			for i := 1; i < len(args); i++ {
 				p := f.Params[i]
 				if isBigIntPtr(p.Type()) {
-					if basePtr(args[i]) != ssa.Value(p) {
+					// when all parameters are distinct objects (the branches taken only for p == q pruned)
+					// the argument is the view of its own parameter
+					dead, deadE := deadAssumingDistinct(f, func(int, int) bool { return true })
+					okView := true
+					leaves := liveLeaves(args[i], dead, deadE, 0)
+					for _, l := range leaves {
+						if basePtr(l) != ssa.Value(p) {
+							okView = false
+						}
+					}
+					if !okView || len(leaves) == 0 {
 						bad = append(bad, fmt.Sprintf("argument %d is not the inner view of parameter %s", i, p.Name()))
 					}
 				} else if args[i] != ssa.Value(p) {
